@@ -92,6 +92,7 @@ def worker(repo, dump_bin, L, kw, out, timeout_s, part="0/1", only=""):
     obs.append(("comment-line-before", rel_prepend([BitVecVal(35, 8), x, nl]) + [ULT(x, 128), x != 10, x != 13, Or(nl == 10, nl == 13), accA], Not(And(accB, same_kids))))
     # O6 a blank line before / after
     obs.append(("blank-line-before", rel_prepend([nl]) + [Or(nl == 10, nl == 13), accA], Not(And(accB, same_kids))))
+    pi, pn = (int(x) for x in part.split("/"))
     # vacuity: some accepted A exists for this keyword within L
     s = SolverFor("QF_BV")
     s.set("timeout", int(timeout_s * 1000))
@@ -99,7 +100,24 @@ def worker(repo, dump_bin, L, kw, out, timeout_s, part="0/1", only=""):
     t1 = time.time()
     r = s.check()
     res["reachable"] = {"verdict": str(r), "s": round(time.time() - t1, 1), "example": string_of(s.model(), A) if r == sat else None}
-    pi, pn = (int(x) for x in part.split("/"))
+    # a handful of DIVERSE accepted lines chosen by the solver (each new one must differ from the previous ones in length or in
+    # the class of some byte): the driver pushes them and their lexical variants through the REAL parser and compares the parsed
+    # transactions field by field (checks the assumption that acceptance + node sequence stand for "what is parsed")
+    examples = []
+    if r == sat and pi == 0:
+        def cls(c):
+            return If(And(UGE(c, 48), ULE(c, 57)), BitVecVal(0, 8), If(Or(And(UGE(c, 65), ULE(c, 90)), And(UGE(c, 97), ULE(c, 122))), BitVecVal(1, 8), If(Or(c == 32, c == 9), BitVecVal(2, 8), BitVecVal(3, 8))))
+        s.set("timeout", 20000)
+        for _ in range(8):
+            m = s.model()
+            ex = string_of(m, A)
+            examples.append(ex)
+            n0 = len(ex)
+            diff = [A.n != n0] + [cls(A.c[i]) != m.eval(cls(A.c[i]), True) for i in range(len(DATE) + len(kw) + 1, min(n0, L))]
+            s.add(Or(diff))
+            if s.check() != sat:
+                break
+    res["examples"] = examples
     res["part"] = part
     res["planned"] = len([1 for j in range(len(obs)) if j % pn == pi and (not only or obs[j][0] in only.split(","))])
     for j, (name, cs, negprop) in enumerate(obs):
